@@ -24,6 +24,8 @@
 //	            | scan <failkeys|-> <reset 0|1>          ForAllExpiredFlowRecordsDo                 -> cb <k>=<dump>;...|- <ok|fail>
 //	            | nflows | expiry | dump                 GetNumFlows | GetExpiryFromExpirePriorityQueue | ForAllRecordsDo (sorted)
 //	            | getrecs <key|0>                        GetRecords (stress only; the answer is only counted)
+//	            | touch                                  ForAllRecordsDo with a callback that writes a flag of every record
+//	                                                     (stress only; the answer is only counted)
 //	            | shr                                    stress only: take the next shared record under a harness-side ticket
 //	                                                     lock and ingest it (so that the end times of the shared key arrive in
 //	                                                     increasing order - the model adds a record's deltas only if it is newer)
@@ -391,7 +393,7 @@ func mkOp(toks []string, pool bool) (op, error) {
 		if len(toks) != 3 {
 			return o, fmt.Errorf("bad scan")
 		}
-	case "nflows", "expiry", "dump", "shr":
+	case "nflows", "expiry", "dump", "shr", "touch":
 		if len(toks) != 1 {
 			return o, fmt.Errorf("bad op")
 		}
@@ -602,6 +604,17 @@ func (r *run) exec(o op) string {
 		return strconv.FormatInt(r.ap.GetExpiryFromExpirePriorityQueue().Milliseconds(), 10)
 	case "dump":
 		return r.dump()
+	case "touch":
+		// the documented use of ForAllRecordsDo: a callback that WRITES to the record it is shown (here a flag nothing
+		// else reads). Two of them, or one and GetRecords, must exclude each other - the race detector sees it if not.
+		n := 0
+		r.ap.ForAllRecordsDo(func(key intermediate.FlowKey, rec *intermediate.AggregationFlowRecord) error {
+			r.ap.SetExternalFieldsFilled(rec, true)
+			r.ap.SetCorrelatedFieldsFilled(rec, r.ap.AreCorrelatedFieldsFilled(*rec))
+			n++
+			return nil
+		})
+		return strconv.Itoa(n)
 	case "getrecs":
 		k, _ := strconv.Atoi(o.toks[1])
 		if k == 0 {
